@@ -16,6 +16,12 @@ Open Scope Z_scope.
 Theorem C11_public_stream_reuses_sync_chain : public_rand_stream_calls_sync_chain = true.
 Proof. reflexivity. Qed.
 
+(* obligation tied to the source: every return of SyncChain after store.AddCallback is directly
+   preceded by store.RemoveCallback(id) or passes on the error of the callback (which removed itself
+   or was replaced) - the model's "every exit unregisters" *)
+Theorem C11_sync_chain_exits_unregister : sync_chain_exits_unregister = true.
+Proof. reflexivity. Qed.
+
 (* the full statement, proved for every schedule on both back-ends, any number of concurrent
    streams and same-id reconnects: what a stream has sent is a prefix of the stored beacons from its
    start position (no round skipped or repeated, strictly increasing, each equal to the stored
@@ -53,6 +59,43 @@ Theorem C11_order_live : forall bk g es k s p n0,
   lprefix (skipn n0 (s_sent s)) (skipn p (store (ss_run bk (ss_init g) es))).
 Proof. exact stream_order_live. Qed.
 Print Assumptions C11_order_live.
+
+(* every delivered beacon is the stored beacon, hence it is sent in its stored form: in particular
+   with the stored previous signature (the signature of the previous round on the chained scheme,
+   empty on unchained schemes), whether it was sent by the scan, the hand-over or the live callback *)
+Theorem C11_delivered_in_stored_form : forall chained bk g es k s,
+  nth_error (streams (ss_run bk (ss_init g) es)) k = Some s ->
+  forall i b, nth_error (s_sent s) i = Some b ->
+    exists b', nth_error (store (ss_run bk (ss_init g) es)) (s_base s + i) = Some b' /\ b = b' /\
+               stored_prev chained (store (ss_run bk (ss_init g) es)) b = stored_prev chained (store (ss_run bk (ss_init g) es)) b'.
+Proof.
+  intros chained bk g es k s H i b Hi. destruct (stream_full_rounds bk g es k s H i b Hi) as [_ Q].
+  exists b. auto.
+Qed.
+Print Assumptions C11_delivered_in_stored_form.
+
+(* every exit of SyncChain unregisters its callback: a stream that has ended (refused, send failed,
+   replaced, context cancelled at any point, also inside the hand-over) is not registered, and the
+   registered callbacks belong to pairwise distinct streams in their live phase - for every schedule *)
+Theorem C11_ended_stream_unregistered : forall bk g es k s e,
+  nth_error (streams (ss_run bk (ss_init g) es)) k = Some s -> s_phase s = PDone e ->
+  registered (reg (ss_run bk (ss_init g) es)) k = false.
+Proof. exact stream_ended_unregistered. Qed.
+Print Assumptions C11_ended_stream_unregistered.
+
+Theorem C11_registered_le_live : forall bk g es,
+  (length (reg (ss_run bk (ss_init g) es)) <= length (live_indices (ss_run bk (ss_init g) es)))%nat.
+Proof. exact registered_le_live. Qed.
+Print Assumptions C11_registered_le_live.
+
+(* consumers that fail or whose context is cancelled inside the hand-over leave nothing registered *)
+Example C11_handover_failures_leave_nothing :
+  let st := ss_run Bolt (ss_init 10)
+    [SPut 11; SPut 12; SStart 10 2; SAck 0 true; SPut 13; SRegister 0; SAck 0 false;
+     SStart 11 3; SAck 1 true; SPut 14; SRegisterCancel 1; SStart 12 4; SAck 2 true; SRegisterCancel 2] in
+  reg st = [] /\ map s_error (streams st) = [Some SErrSend; Some SErrCanceled; Some SErrCanceled] /\
+  map (fun s => map fst (s_sent s)) (streams st) = [[2]; [3]; [4]].
+Proof. vm_compute. repeat split; reflexivity. Qed.
 
 (* regression: the schedule that used to lose round 4 (store 0..3, stream from 1, an append between
    the end of the scan and AddCallback, sent 1 2 3 5 6 before the fix), and the append during the
